@@ -84,7 +84,7 @@ CHECKS = {
               "nothing to fetch and that mutual repair equalises live ids; the harness repeats all three clauses with the real diff(), "
               "will_apply() and mutators on every distinct state."),
         design_ref="DESIGN.md section 7 C05",
-        note="Same bounds as C03. The poller level of the exchange (handle_removals / handle_modified / begin_keyspace_sync) is bound by the cluster component: behaviours without any direct replication replayed on real nodes in the three modes described for C01; every diff a real keyspace actor answered is validated against DiffSpec by Trace_KeyspaceActor.tla."),
+        note="Same bounds as C03. The poller level of the exchange (handle_removals / handle_modified / begin_keyspace_sync) is bound by the cluster component: behaviours without any direct replication replayed on real nodes in the three modes described for C01; every diff a real keyspace actor answered is validated against DiffSpec by Trace_KeyspaceActor.tla. Single real poller rounds of 1 .. 166 668 documents (50 001 / 100 001 / 150 001 modified ones: the poller's fetch limit and its multiples, plus one) and exchanges with one fault in them: a refused repair write, a refused read behind a fetch, a repair write that takes longer than the progress watcher waits (Poller.tla: Sync timeout, then LateLand / LateDrop) - none of these may count as done."),
     "C12": dict(
         engine="tlc + h-rpc",
         technique="TLC model checking of a toy bit-level framing model + TLC trace validation of exhaustive per-frame mutations run through the real DataView::using, a real server and a real client",
@@ -120,7 +120,7 @@ CHECKS = {
               "membership (modulo the two listed known findings) and that every delta reports departures with the address they had; every behaviour "
               "is replayed on the real watcher task and a real subscriber, comparing delta contents and the accumulated map."),
         design_ref="DESIGN.md section 7 C16",
-        note="Known findings C16-late-subscriber and C16-skipped-delta (latest-value channel of deltas) are recorded in known_findings.json; any other mismatch is a violation. Chitchat's own failure detection is outside the model. The consumers of the events are part of the model (DistTick / PollRound: the store's watcher hands every change to the task distributor and the replication cycle) and are bound by a second replay: the real store watcher, task distributor and replication cycle over a harness-built node handle, with real peer servers; judged by the distributor's live members after its drain, by which peers' storages received the batch built at that tick, and by the replication cycle's live members at the start of its round (keyspace-tracker contents are reported as drift only)."),
+        note="Known findings C16-late-subscriber and C16-skipped-delta (latest-value channel of deltas) are recorded in known_findings.json; any other mismatch is a violation. Chitchat's own failure detection is outside the model. The consumers of the events are part of the model (DistTick / PollRound: the store's watcher hands every change to the task distributor and the replication cycle) and are bound by a second replay: the real store watcher, task distributor and replication cycle over a harness-built node handle, with real peer servers; judged by the distributor's live members after its drain, by which peers' storages received the batch built at that tick, and by the replication cycle's live members at the start of its round (keyspace-tracker contents are reported as drift only). Beyond the statement: wait_for_nodes / wait_for_members is specified in WaitFor.tla (model checked; the variation that is content with any one of the nodes is told apart) and the calls of real ChitchatNodes made around every join and departure are judged by Trace_MembershipSource.tla; a difference there is reported as drift, not as a C16 verdict."),
     "C17": dict(
         engine="tlc + h-ec",
         technique="TLC exhaustive exploration of the reference model Storage.tla + replay of every transition on MemStore, SQLite (memory and file) and LMDB with read-back comparison",
